@@ -105,7 +105,7 @@ def rand_archive(r, nmax=6):
         d["cd_gap"] = rand_bytes(r, r.randint(1, 30))
     if r.random() < 0.3:
         d["z64end"] = True
-        d["z64_sentinels"] = r.choice(["all", "needed"])
+        d["z64_sentinels"] = r.choice(["all", "needed", "all+disks", "disks"])
     elif r.random() < 0.3:
         room = 65535 - len(d.get("comment", b""))
         g = r.choice([1, 100, room]) if room >= 1 else 0
